@@ -417,11 +417,33 @@ fn gen_stream_plain(r: &mut Rng, tier: Tier, small: bool) -> (Vec<u8>, usize) {
             spec.n_ciphers = spec.n_ciphers.min(20);
             spec.n_ext_extra = spec.n_ext_extra.min(5);
         }
-        let rec = tls::client_hello(r, &spec);
+        let rec = if r.chance(1, 20) { tls::tiny_hello(r) } else { tls::client_hello(r, &spec) };
         let total = rec.len();
         let mut s = rec;
         // (a second hello only behind a first one that a TLS stack accepts: records above 2^14 are not)
         s.extend_from_slice(&tls::trailing_opt(r, total <= 16000));
+        (s, total)
+    } else if kind < 9 && r.chance(1, 4) {
+        // a handshake message that is not a ClientHello, fragmented over two records (RFC 5246 6.2.1 allows it), with a
+        // complete ClientHello message behind its tail in the second record: the first record is not a ClientHello
+        // record, so nothing is to be reported, however the bytes arrive
+        let spec = tls::random_spec(r, 600);
+        let hello = tls::client_hello(r, &HelloSpecPlain::plain(spec));
+        let hello_msg = hello[5..].to_vec();
+        let total_len = r.urange(40, 300);
+        let in_first = r.urange(1, total_len - 1);
+        // (0xff bytes: a tail that can never be read as a run of well-formed handshake messages by coincidence)
+        let body = vec![0xffu8; total_len];
+        let mut m1 = vec![*r.pick(&[20u8, 11, 2, 16, 4]), 0];
+        m1.extend_from_slice(&(total_len as u16).to_be_bytes());
+        m1.extend_from_slice(&body[..in_first]);
+        let rec1 = tls::record(0x16, 0x0303, &m1);
+        let mut m2 = body[in_first..].to_vec();
+        m2.extend_from_slice(&hello_msg);
+        let rec2 = tls::record(0x16, 0x0303, &m2);
+        let total = rec1.len();
+        let mut s = rec1;
+        s.extend_from_slice(&rec2);
         (s, total)
     } else if kind < 9 {
         // a handshake record that is not a ClientHello
@@ -436,6 +458,17 @@ fn gen_stream_plain(r: &mut Rng, tier: Tier, small: bool) -> (Vec<u8>, usize) {
         let mut s = vec![0x16, 3, 1, 0xff, 0xf0];
         s.extend_from_slice(&r.bytes(n));
         (s, 5 + 0xfff0)
+    }
+}
+
+/// a hello spec without messages coalesced in front (the hello must start its record)
+struct HelloSpecPlain;
+impl HelloSpecPlain {
+    fn plain(mut s: tls::HelloSpec) -> tls::HelloSpec {
+        s.coalesced_before = 0;
+        s.exact_body = None;
+        s.target_len = s.target_len.min(600);
+        s
     }
 }
 
